@@ -31,7 +31,7 @@ type wop struct {
 }
 
 type cpoint struct {
-	Class  string `json:"class"`            // meta | data
+	Class  string `json:"class"`            // meta | data | txn (the N-th read-write transaction of the underlying badger DB)
 	N      int    `json:"n"`                // the process dies at the N-th write of the class (0 = before the first)
 	Mode   string `json:"mode"`             // after | before
 	Second int    `json:"second,omitempty"` // the recovering process dies after its Second-th metadata write
@@ -118,6 +118,20 @@ type world struct {
 func newWorld(ops []wop) *world {
 	w := &world{names: newTable(), branches: newTable(), keys: newTable(), vals: newTable()}
 	seen := map[string]bool{}
+	type inst struct {
+		repo int
+		name string
+	}
+	versions := map[inst][]int{} // versions at which the workload writes the instance, in order of first use
+	keys := map[inst][]string{}
+	has := func(xs []int, x int) bool {
+		for _, y := range xs {
+			if x == y {
+				return true
+			}
+		}
+		return false
+	}
 	for _, o := range ops {
 		switch o.Op {
 		case "newdata", "deldata":
@@ -128,14 +142,35 @@ func newWorld(ops []wop) *world {
 			w.names.of(o.Name)
 			w.keys.of(o.Key)
 			w.vals.of(o.Val)
-			k := fmt.Sprintf("%d/%s/%d/%s", o.Repo, o.Name, o.V, o.Key)
+			in := inst{o.Repo, o.Name}
+			if !has(versions[in], o.V) {
+				versions[in] = append(versions[in], o.V)
+			}
+			k := fmt.Sprintf("%d/%s/%s", o.Repo, o.Name, o.Key)
 			if !seen[k] {
 				seen[k] = true
-				w.probes = append(w.probes, probe{o.Repo, o.Name, o.V, o.Key})
+				keys[in] = append(keys[in], o.Key)
 			}
 		}
 	}
-	// every probe key is also read at every other version the workload reads or writes it at
+	// every key is read at every version the workload writes its instance at (a key deleted in one
+	// version is read through its descendants, a key never written there through its ancestors)
+	done := map[inst]bool{}
+	for _, o := range ops {
+		if o.Op != "put" && o.Op != "del" {
+			continue
+		}
+		in := inst{o.Repo, o.Name}
+		if done[in] {
+			continue
+		}
+		done[in] = true
+		for _, k := range keys[in] {
+			for _, v := range versions[in] {
+				w.probes = append(w.probes, probe{o.Repo, o.Name, v, k})
+			}
+		}
+	}
 	return w
 }
 
@@ -286,6 +321,13 @@ type reference struct {
 	cumData  []int
 	refs     []snapshot
 	leftover int // keys still stored under deleted instances' ids after their deletion finished
+	// read-write transactions of the underlying badger DB (seen only when the DVID tree carries the
+	// storage/badger hook): cumulative count after init and after each op, and the ordinals after
+	// which the process is in a state no store-call boundary shows
+	txnHook  bool
+	cumTxn   []int
+	interior []int // followed by another transaction of the same store call
+	loose    []int // outside any counted store call
 }
 
 func freshDir() string {
@@ -306,6 +348,8 @@ func runReference(c jcrash, w *world) reference {
 	var r reference
 	m, d, _ := p.Writes()
 	r.cumMeta, r.cumData = append(r.cumMeta, m), append(r.cumData, d)
+	_, tn, _, _ := p.Txns()
+	r.cumTxn = append(r.cumTxn, tn)
 	r.refs = append(r.refs, takeSnapshot(p, w))
 	for _, o := range c.Ops {
 		iid := 0
@@ -323,9 +367,12 @@ func runReference(c jcrash, w *world) reference {
 		}
 		m, d, _ := p.Writes()
 		r.cumMeta, r.cumData = append(r.cumMeta, m), append(r.cumData, d)
+		_, tn, _, _ := p.Txns()
+		r.cumTxn = append(r.cumTxn, tn)
 		r.refs = append(r.refs, takeSnapshot(p, w))
 	}
 	_, _, r.trace = p.Writes()
+	r.txnHook, _, r.interior, r.loose = p.Txns()
 	p.Quit()
 	return r
 }
@@ -613,8 +660,33 @@ func runCrashCase(run *lib.Run, c jcrash, o lib.Opts) {
 		}
 		totalD := ref.cumData[len(ref.cumData)-1]
 		for n := 1; n <= totalD; n++ {
-			pts = append(pts, cpoint{Class: "data", N: n, Mode: "after"}, cpoint{Class: "data", N: n, Mode: "before"})
+			pts = append(pts, cpoint{Class: "data", N: n, Mode: "after"})
+			// (as with the metadata writes: a sample of the immediately-before points when the workload
+			// has many data writes; all of them in the thorough tier)
+			if o.Thorough() || totalD <= 10 || n%3 == 0 {
+				pts = append(pts, cpoint{Class: "data", N: n, Mode: "before"})
+			}
 		}
+		// below the store interface: after every transaction of the underlying DB that leaves the
+		// process in a state no store-call boundary shows (another transaction of the same Put / Delete
+		// follows, or the transaction was issued outside the counted calls)
+		tp := append(append([]int{}, ref.interior...), ref.loose...)
+		sort.Ints(tp)
+		for i, n := range tp {
+			if i == 0 || n != tp[i-1] {
+				pts = append(pts, cpoint{Class: "txn", N: n, Mode: "after"})
+			}
+		}
+	}
+	if !ref.txnHook {
+		if _, said := run.Extra["txn_hook_note"]; !said {
+			run.Notes = append(run.Notes, "WARNING: no storage/badger transaction hook in this DVID tree (repo_patches/C04-hook.diff): crash points between two transactions of one store call were not executed")
+			fmt.Fprintln(os.Stderr, "c04: WARNING: DVID tree without the storage/badger transaction hook (repo_patches/C04-hook.diff); transaction-level crash points skipped")
+		}
+		run.Extra["txn_hook"] = false
+		run.Extra["txn_hook_note"] = "the DVID tree lacks the storage/badger transaction hook (repo_patches/C04-hook.diff): crash points between two transactions of one store call were NOT executed"
+	} else if _, ok := run.Extra["txn_hook"]; !ok {
+		run.Extra["txn_hook"] = true
 	}
 	var ps, psDel []string
 	second := 0
@@ -625,6 +697,9 @@ func runCrashCase(run *lib.Run, c jcrash, o lib.Opts) {
 		cumP := ref.cumMeta
 		if pt.Class == "data" {
 			cumP = ref.cumData
+		}
+		if pt.Class == "txn" {
+			cumP = ref.cumTxn
 		}
 		lastWrite := ""
 		if pt.Class == "meta" && pt.Mode == "after" && pt.N >= 1 && pt.N <= len(ref.trace) {
@@ -649,6 +724,9 @@ func runCrashCase(run *lib.Run, c jcrash, o lib.Opts) {
 		cum := ref.cumMeta
 		if pt.Class == "data" {
 			cum = ref.cumData
+		}
+		if pt.Class == "txn" {
+			cum = ref.cumTxn
 		}
 		eff := pt.N // number of writes of the class that are persisted
 		if pt.Mode == "before" && pt.N > 0 {
@@ -717,6 +795,9 @@ func runCrashCase(run *lib.Run, c jcrash, o lib.Opts) {
 			if pt.Class == "data" {
 				cum = ref.cumData
 			}
+			if pt.Class == "txn" {
+				cum = ref.cumTxn
+			}
 			if j := opIndex(cum, pt.N); j >= 1 && j <= len(c.Ops) && c.Ops[j-1].Op == "deldata" {
 				cd.Points = append(cd.Points, pt)
 			}
@@ -728,6 +809,9 @@ func runCrashCase(run *lib.Run, c jcrash, o lib.Opts) {
 	run.Dist["confirmed_on_reexecution"] += st.confirmed
 	run.Dist["keys-left-after-DeleteAll"] += ref.leftover
 	run.Dist["crash-points"] += len(ps)
+	run.Dist["transactions"] += ref.cumTxn[len(ref.cumTxn)-1]
+	run.Dist["transactions-inside-a-store-call"] += len(ref.interior)
+	run.Dist["transactions-outside-store-calls"] += len(ref.loose)
 	run.Dist["workload-ops"] += len(c.Ops)
 	run.Dist["metadata-writes"] += ref.cumMeta[len(ref.cumMeta)-1]
 }
@@ -743,6 +827,8 @@ func fixedWorkload() jcrash {
 		{Op: "put", Repo: 1, V: 2, Name: "kv1", Key: "k1", Val: "val2"},
 		{Op: "put", Repo: 1, V: 3, Name: "kv1", Key: "k2", Val: "val3"},
 		{Op: "del", Repo: 1, V: 3, Name: "kv1", Key: "k1"},
+		{Op: "put", Repo: 1, V: 3, Name: "kv1", Key: "k1", Val: "val4"},
+		{Op: "del", Repo: 1, V: 3, Name: "kv1", Key: "k1"},
 		{Op: "commit", Repo: 1, V: 2},
 		{Op: "commit", Repo: 1, V: 3},
 		{Op: "merge", Repo: 1, Parents: []int{2, 3}},
@@ -756,8 +842,47 @@ func fixedWorkload() jcrash {
 	}}
 }
 
+// versionedKeys: every shape of one key over a version and its ancestors -- the ancestor holds a
+// value / a tombstone / nothing, the version itself holds a value / a tombstone / nothing -- followed
+// by a delete or a put, and read at the version, its ancestors and its descendants.  (A delete must
+// hide the ancestor's value from the moment the version's own value is gone; a put must show its
+// value from the moment the version's tombstone is gone.)
+func versionedKeys() jcrash {
+	kv := func(op string, v int, key, val string) wop {
+		return wop{Op: op, Repo: 1, V: v, Name: "kv", Key: key, Val: val}
+	}
+	return jcrash{Kind: "crash", Name: "W2-versioned-keys", Ops: []wop{
+		{Op: "newrepo", Repo: 1},
+		{Op: "newdata", Repo: 1, Name: "kv"},
+		kv("put", 1, "a", "a1"),
+		kv("put", 1, "b", "b1"),
+		kv("put", 1, "d", "d1"),
+		kv("del", 1, "d", ""), // own value, no ancestor
+		kv("put", 1, "e", "e1"),
+		{Op: "commit", Repo: 1, V: 1},
+		{Op: "newversion", Repo: 1, V: 1},
+		kv("put", 2, "a", "a2"),
+		kv("del", 2, "a", ""), // ancestor value + own value
+		kv("del", 2, "b", ""), // ancestor value, no own value
+		kv("put", 2, "c", "c2"),
+		kv("del", 2, "c", ""), // own value only
+		kv("put", 2, "d", "d2"),
+		kv("del", 2, "d", ""), // ancestor tombstone + own value
+		kv("del", 2, "e", ""),
+		kv("del", 2, "e", ""),   // own tombstone already there
+		kv("put", 2, "b", "b2"), // own tombstone -> value
+		{Op: "commit", Repo: 1, V: 2},
+		{Op: "newversion", Repo: 1, V: 2},
+		kv("del", 3, "b", ""),   // ancestor value over an older ancestor value
+		kv("put", 3, "a", "a3"), // ancestor tombstone over an older ancestor value
+		kv("del", 3, "a", ""),
+		kv("put", 3, "e", "e3"),
+	}}
+}
+
 func genCrash(run *lib.Run, o lib.Opts, rng *lib.Rand) {
 	runCrashCase(run, fixedWorkload(), o)
+	runCrashCase(run, versionedKeys(), o)
 	n := 1
 	if o.Thorough() {
 		n = 8
@@ -816,7 +941,12 @@ func randomWorkload(rng *lib.Rand, idx int) jcrash {
 		}
 		sort.Slice(nodes, func(a, b int) bool { return nodes[a].v < nodes[b].v })
 		n := nodes[rng.Intn(len(nodes))]
-		switch rng.Intn(12) {
+		switch rng.Intn(14) {
+		case 12, 13:
+			// delete a key (written before or not, here or in an ancestor or nowhere)
+			if len(data[n.repo]) > 0 && !n.locked {
+				do(wop{Op: "del", Repo: n.repo, V: n.v, Name: data[n.repo][rng.Intn(len(data[n.repo]))], Key: fmt.Sprintf("k%d", rng.Intn(3))})
+			}
 		case 0:
 			if nextRepo <= 3 {
 				do(wop{Op: "newrepo", Repo: nextRepo})
